@@ -458,6 +458,113 @@ def _storage_variants(run, rng, lines, meta, cell, smat, pm, prim, scell, full, 
     run.count("storage-variant oracle (arrays handed over in non-default layout)", n=ntest, section="oracle")
 
 
+def _ph2ph_options_part(run, rng, thorough):
+    """ph2ph / ph2fc on objects built with non-default constructor options in combination: the dynamical matrices of the
+    interpolated object at the commensurate points of the ORIGINAL supercell must equal the original's."""
+    import warnings
+
+    from phonopy.harmonic import force_constants as F
+    from phonopy.harmonic.dynmat_to_fc import get_commensurate_points, ph2fc
+
+    nondiag = [np.array(m) for m in ([[2, 1, 0], [0, 2, 0], [0, 0, 1]], [[2, 0, 0], [1, 2, 0], [0, 1, 2]], [[-1, 1, 1], [1, -1, 1], [1, 1, -1]],
+                                      [[1, 1, 0], [0, 2, 0], [0, 0, 1]], [[2, 0, 0], [1, 1, 0], [0, 0, 2]])]
+    factors = [np.diag([2, 1, 1]), np.diag([1, 2, 1]), np.diag([1, 1, 2]), np.array([[1, 1, 0], [0, 2, 0], [0, 0, 1]])]
+    names = ["nacl_prim", "cscl", "zincblende_prim", "triclinic", "hcp", "bcc"]
+    ncases = 12 if thorough else 4
+    for c in range(ncases):
+        name = names[(c + run.seed) % len(names)]
+        cell, cen = _cell(name)
+        opts = {}
+        # every case combines several options; SNF x non-diagonal in at least half of them
+        snf = c % 2 == 0
+        smat = nondiag[rng.randrange(len(nondiag))] if (snf or rng.random() < 0.5) else np.diag([2, 1, 2])
+        if snf:
+            opts["use_SNF_supercell"] = True
+            # a matrix for which the SNF and the old-style builders order the supercell atoms differently
+            from phonopy.structure.cells import get_supercell
+
+            order = list(range(len(nondiag)))
+            rng.shuffle(order)
+            for k in order:
+                a = get_supercell(cell, nondiag[k], is_old_style=True)
+                b = get_supercell(cell, nondiag[k], is_old_style=False)
+                dpos = a.scaled_positions - b.scaled_positions
+                if len(a) == len(b) and np.abs(dpos - np.rint(dpos)).max() > 1e-6:
+                    smat = nondiag[k]
+                    run.count("SNF supercell with an atom order different from the old-style builder")
+                    break
+        if rng.random() < 0.5:
+            opts["store_dense_svecs"] = False
+        if rng.random() < 0.4:
+            opts["is_symmetry"] = False
+        if rng.random() < 0.4:
+            opts["symprec"] = 1e-4
+        if rng.random() < 0.5:
+            opts["factor"] = rng.choice([521.47083, 98.1761, 1.0])
+        if c == 1 or (thorough and c % 4 == 1):
+            opts["frequency_scale_factor"] = rng.choice([1.1, 0.95])
+        pm = "P" if cen == "P" else rng.choice(["P", "auto"])
+        M = factors[rng.randrange(len(factors))]
+        smat2 = smat @ M
+        if len(cell) * abs(int(round(np.linalg.det(smat2)))) > (64 if thorough else 40):
+            smat, smat2 = nondiag[3], nondiag[3] @ np.diag([1, 1, 2])
+        variant = "omp" if c % 2 else "ser"
+        common.switch_variant(variant)
+        with warnings.catch_warnings():
+            warnings.simplefilter("ignore")
+            try:
+                ph = gen.make_phonopy(cell, smat, pmat=pm, **opts)
+            except Exception:
+                run.count("constructor-rejected")
+                continue
+            full = rng.choice([True, False])
+            cutoff = max(rng.choice([0.6, 1.0]) * gen.min_lattice_vector(ph.supercell.cell), 0.85 * min(np.linalg.norm(ph.primitive.cell, axis=1)))
+            phi = U.pair_fc(ph.supercell, cutoff)
+            if not U.close(F.compact_fc_to_full_fc(ph.primitive, F.full_fc_to_compact_fc(ph.primitive, phi)), phi, 1e-12):
+                run.count("generator: pair fc not periodic (case skipped)")
+                continue
+            ph.force_constants = phi if full else F.full_fc_to_compact_fc(ph.primitive, phi)
+            method = None
+            if c % 3 == 2 and opts.get("is_symmetry", True):
+                method = rng.choice(["wang", "gonze"])
+                born, eps = U.random_born_eps(rng, len(ph.primitive))
+                ph.nac_params = {"born": born, "dielectric": eps, "factor": 14.4, "method": method}
+            info = dict(cell=name, smat=smat.tolist(), target=smat2.tolist(), pmat=pm, options={k: (v if not isinstance(v, np.generic) else float(v)) for k, v in opts.items()},
+                        layout="full" if full else "compact", nac=method, variant=variant)
+            run.case(("ph2ph-options", name, smat.tolist(), smat2.tolist(), pm, sorted(opts.items()), full, method), nontrivial=True)
+            run.count("ph2ph with options " + "+".join(sorted(opts)) if opts else "ph2ph with default options")
+            smat_p = np.rint(np.linalg.inv(ph.primitive.primitive_matrix)).astype(int)
+            cp = get_commensurate_points(smat_p)
+            ph.run_qpoints(cp, with_dynamical_matrices=True)
+            d0 = np.array(ph.get_qpoints_dict()["dynamical_matrices"])
+            sc = max(1.0, float(np.abs(d0).max()))
+            tol = 1e-6 if method == "gonze" else TOL
+            use_ph2fc = c % 2 == 1
+            if use_ph2fc:
+                fc2 = ph2fc(ph, smat2, with_nac=method is not None)
+                ph2 = ph.ph2ph(smat2, with_nac=method is not None)
+                if not U.close(np.array(ph2.force_constants), np.array(fc2), 1e-12, max(1.0, float(np.abs(fc2).max()))):
+                    run.violation("ph2fc", "differs-from-ph2ph", "ph2fc and Phonopy.ph2ph return different force constants", info)
+            else:
+                ph2 = ph.ph2ph(smat2, with_nac=method is not None)
+            if ph2.nac_params is not None:
+                ph2.nac_params = None
+            ph2.run_qpoints(cp, with_dynamical_matrices=True)
+            d1 = np.array(ph2.get_qpoints_dict()["dynamical_matrices"])
+        run.count("ph2ph options oracle", section="oracle")
+        if not U.close(d1, d0, tol, sc):
+            klass = "dynmat-not-preserved-frequency-scale-factor" if "frequency_scale_factor" in opts and _only_fsf(d1, d0, opts) else "dynmat-not-preserved-options"
+            run.violation("Phonopy.ph2ph", klass,
+                          "object built with %s: dynamical matrices at the original commensurate points change by %.3g (scale %.3g)" % (sorted(opts), U.maxdiff(d1, d0), sc), info)
+    common.switch_variant("omp")
+
+
+def _only_fsf(d1, d0, opts):
+    """the deviation is the pure factor frequency_scale_factor**2 (the double application)"""
+    f = float(opts["frequency_scale_factor"])
+    return U.close(d1, d0 * f * f, 1e-9, max(1.0, float(np.abs(d0).max())))
+
+
 def _relabel_part(run, rng, lines, meta, thorough):
     """Description invariance: the same crystal with relabelled lattice vectors (left-handed: det M = -1; sheared /
     cyclic: det +1) and the supercell matrix M^-T S M^T of the same supercell lattice.  The property's oracle runs ON
@@ -825,6 +932,7 @@ def main(run):
     _ph2ph_part(run, rng, thorough, lines, meta)
     _reordered_part(run, rng, lines, meta, thorough)
     _relabel_part(run, rng, lines, meta, thorough)
+    _ph2ph_options_part(run, rng, thorough)
     out = common.lean_run_driver("C06", lines)
     if len(out) != len(lines):
         run.broke("correspondence", "driver answered %d lines for %d requests" % (len(out), len(lines)))
